@@ -53,6 +53,15 @@ DESC = {
  "C03-r2c03_2": ("SO3 log branch-free hemisphere sign atan2(sgn(w) s, sgn(w) c)", "w == 0 exactly (+0: log = 0, -0: |log| = 2 pi)", "sub-agent seed-r2c03, round 2 (adversarial)"),
  "C03-r2c03_3": ("SE2 log through cot(theta/2) = (1+cos)/sin evaluated from the stored complex number", "rotation part stored exactly as (-1, +-0): NaN; accuracy loss (5e-9) within 1e-4 of pi", "sub-agent seed-r2c03, round 2 (adversarial)"),
  "C03-r2c03_4": ("SO3 log(J) small-angle fast path without the hemisphere sign (only when a Jacobian is requested)", "w<0 element within 3e-7 rad of the identity AND the Jacobian overload", "sub-agent seed-r2c03, round 2 (adversarial)"),
+ "C14-r3c14_1": ("SO3::rotation() memoises quaternion->matrix in a process-wide seqlock of relaxed atomics whose reader re-validates with 'sequence is even' instead of 'sequence unchanged'", "two threads using two or more distinct quaternions of one scalar type concurrently; invisible to the race detector (all accesses atomic), only the values are torn", "sub-agent seed-r3c14, round 3 (property text only)"),
+ "C14-r3c14_2": ("Identity()/Zero()/InnerWeights() statics replaced by a hand-rolled StaticOnce<T> (atomic state + mutex + condition variable) whose waiters test the predicate before taking the lock", "concurrent first use of one helper by two threads; no data race and correct values, the loser sleeps for ever (lost wake-up)", "sub-agent seed-r3c14, round 3 (property text only)"),
+ "C14-r3c14_3": ("BundleTangent::Generator(i) caches assembled generators in a lazily grown std::vector (published count atomic, readers lock-free, no reserve)", "a Bundle; first use of a higher index on one thread while another copies a lower, already published entry (push_back reallocates under the reader)", "sub-agent seed-r3c14, round 3 (property text only)"),
+ "C09-r3c09_1": ("SGal3Tangent::exp(): thread_local memo of the E block keyed on theta^2 although E depends on the rotation vector", "SGal3 with t != 0 and nu != 0; the previous exp() had the bit-identical angle about a different axis (exp(tau) then exp(-tau))", "sub-agent seed-r3c09, round 3 (property text only)"),
+ "C09-r3c09_2": ("SO3::log() flips the stored quaternion in place (const_cast) in the small-angle w<0 case instead of using the coefficient -2; returned values identical", "a valid unit quaternion next to minus identity (w<0, |vec|^2<=eps) held in a stored object; only a before/after comparison of the operand shows it", "sub-agent seed-r3c09, round 3 (property text only)"),
+ "C09-r3c09_3": ("SO3::rotation() returns a const reference to a static thread_local scratch matrix", "two rotation() results of one static type alive at once: inside one expression, or a result bound to const auto& across a later call on another object", "sub-agent seed-r3c09, round 3 (property text only)"),
+ "C10-r3c10_1": ("Map<const SO3Tangent> traits inherit the owning DataType: the const view becomes a snapshot of the buffer", "const tangent view created, buffer modified, view used again; or view.data() compared with the buffer", "sub-agent seed-r3c10, round 3 (property text only)"),
+ "C10-r3c10_2": ("ceres Plus functors use the output block as scratch (out = exp(d); out = state*out)", "the caller passes the same pointer as state and as output of the functor", "sub-agent seed-r3c10, round 3 (property text only)"),
+ "C10-r3c10_3": ("MANIF_TANGENT_MAP_ASSIGN_OP: operator=(Map&&) re-seats the tangent view instead of copying", "a tangent Map assigned from an rvalue Map of the same type (std::move, or temporaries from asSO3()/element<i>())", "sub-agent seed-r3c10, round 3 (property text only)"),
 }
 
 
@@ -61,6 +70,12 @@ NOTES = {
                 "destination view inside one buffer.  Views that overlap each other are outside the property's quantifier (user buffers with "
                 "guard zones); plain `Map = Map` on overlapping buffers is not overlap-safe on the pinned tree either (Eigen assumes no aliasing), "
                 "so a model of what overlapping views 'should' do would have to be invented.  Recorded as a known blind spot in DESIGN.md section 12.",
+ "C10-r3c10_2": "NOT COUNTED as a break of C10, not detected and deliberately not attempted: every manif operation, through every kind of view, behaves "
+                "as before; the only observable difference needs the caller to pass one pointer as both the input state and the output of the "
+                "ceres functor.  Neither the property (views vs owning objects; exact writes; no stray reads) nor the contract of ceres' Plus "
+                "(distinct x and x_plus_delta; ceres' own quaternion manifold is not alias-safe either) promises that, so a check flagging it would "
+                "raise alarms on code where the property holds.  The functors themselves belong to C12 (not applicable here: ceres is not installed). "
+                "Kept for the record with the author's demonstration.",
 }
 
 
